@@ -228,10 +228,10 @@ ISREL = lambda ch: '(isinstance(RELTOK(), Token) and RELTOK().text == "%s")' % c
 P.fn(F + 'lengthtest.invoke', name='lengthtest.invoke', params=dict(self='lengthtest', tex='TeX'), returns='list[Item]',
      requires=['ghost("nrd") == 0'],
      ensures=['len(result) == 1', 'isinstance(result[0], _boolToken)',
-              # the comparison the test spells; equality up to one millionth of a scaled point in either direction (TeX compares integers
-              # of scaled points, plasTeX computes lengths in floating point)
-              'implies(%s, result[0].state == (DIM_A() < DIM_B()))' % ISREL('<'),
-              'implies(%s, result[0].state == (DIM_A() > DIM_B()))' % ISREL('>'),
+              # the comparison the test spells (TeX compares integers of scaled points, plasTeX computes lengths in floating point)
+              # lengths closer than one millionth of a scaled point are the same length; then exactly one of < = > holds
+              'implies(%s, result[0].state == (DIM_B() - DIM_A() >= 0.000001))' % ISREL('<'),
+              'implies(%s, result[0].state == (DIM_A() - DIM_B() >= 0.000001))' % ISREL('>'),
               'implies(%s, result[0].state == (DIM_A() - DIM_B() < 0.000001 and DIM_B() - DIM_A() < 0.000001))' % ISREL('=')],
      raises={'ValueError': 'iff:not (%s or %s or %s)' % (ISREL('<'), ISREL('>'), ISREL('='))},
      allocates=True, modifies=[Mod('state', 'False'), Mod('list:Item', 'False')],
